@@ -221,11 +221,15 @@ def generate(rng, tier):
     A("xpub.derive_path", xpub_args(pk, cc, 0, 0, None) + [T("m/1/2'/3")])
     A("xpub.derive_path", xpub_args(pk, cc, 0, 0, None) + [T("m/1h")])
     # lenient / malformed strings: mostly on a public parent (no scalar multiplication needed to build it)
-    for i, p in enumerate(LENIENT + MALFORMED):
-        if i % 4 == 0:
+    # (the two files carry separate copies of the parser: both are driven; hardened spellings are only
+    #  distinguishable on the private side, where a parent costs one scalar multiplication)
+    for i, p in enumerate(LENIENT):
+        A("xprv.derive_path", xprv_args(k, 1, cc, 0, 0, None) + [T(p)])
+        A("xpub.derive_path", xpub_args(pk, cc, 0, 0, None) + [T(p)])
+    for i, p in enumerate(MALFORMED):
+        A("xpub.derive_path", xpub_args(pk, cc, 0, 0, None) + [T(p)])
+        if i % 3 == 0 or not quick:
             A("xprv.derive_path", xprv_args(k, 1, cc, 0, 0, None) + [T(p)])
-        else:
-            A("xpub.derive_path", xpub_args(pk, cc, 0, 0, None) + [T(p)])
     for _ in range(20 if quick else 200):
         # random strings over the path alphabet
         s = rng.choice(["m", "M", "m/", "m/"]) + "".join(rng.choice("0123456789/'hH+") for _ in range(rng.randrange(1, 8)))
